@@ -26,7 +26,10 @@ Ignored on purpose (single-threaded data semantics only): in AdapterLookupBase.c
 reference dereference, ``r.unsubscribe(self)`` (the specification's dependents are not part of the
 ``caches`` record) and the try/except guards against concurrent callers - only "every recorded
 subscription is taken out of _required" is kept; in _subscribe ``r.weakref()`` / ``r.subscribe(self)``.
-These two methods are accepted only if their text equals the pinned text below.
+These two methods are accepted only if their text equals the pinned text below.  VerifyingBase (the Python
+twin of the C VB_* wrappers) is checked, not translated: _getcache / lookupAll / subscriptions must be
+"self._verify(); return LookupBaseFallback.<same>(self, ...)" and no other entry point may be overridden, so that
+every path into the caches verifies first (Model/RegSys.with_lookup).
 """
 import ast
 import os
@@ -72,6 +75,20 @@ def changed(self, ignored=None):
                 r.unsubscribe(self)
             except KeyError:
                 pass
+'''
+
+PINNED_VERIFYING = '''
+def _getcache(self, provided, name):
+    self._verify()
+    return LookupBaseFallback._getcache(self, provided, name)
+
+def lookupAll(self, required, provided):
+    self._verify()
+    return LookupBaseFallback.lookupAll(self, required, provided)
+
+def subscriptions(self, required, provided):
+    self._verify()
+    return LookupBaseFallback.subscriptions(self, required, provided)
 '''
 
 # (class, method, Gallina name, parameter kinds, result kind)
@@ -710,6 +727,17 @@ def translate_source(text, origin="adapter.py"):
             if isinstance(n, ast.FunctionDef) and n.name in BY_NAME and n.name not in translated and n.name != "__init__":
                 _fail(n, "%s overrides %s" % (cname, n.name))
     _check_uncached(classes["AdapterLookupBase"])
+    # VerifyingBase: every path into the caches runs self._verify() first (lookup / lookup1 / adapter_hook reach
+    # them through _getcache only, which the translation above establishes for LookupBase); nothing else overridden
+    vb = _class(module, "VerifyingBase")
+    allowed = {"changed", "_verify", "_getcache", "lookupAll", "subscriptions"}
+    for n in vb.body:
+        if isinstance(n, ast.FunctionDef) and n.name not in allowed:
+            _fail(n, "VerifyingBase defines %s" % n.name)
+    for want in ast.parse(PINNED_VERIFYING).body:
+        if not _same_text(_method(vb, want.name), ast.unparse(want)):
+            _fail(_method(vb, want.name), "VerifyingBase.%s differs from 'self._verify(); return LookupBaseFallback.%s(...)'"
+                  % (want.name, want.name))
     out = ["(* GENERATED by harness/translate/lookup_py.py from %s -- do not edit." % origin,
            "   Regenerated on every run; Proofs/LookupGen.v re-proves it equal to Model/Lookup.v. *)",
            "From Coq Require Import List Arith Bool.", "Import ListNotations.",
